@@ -308,6 +308,9 @@ def check(spec, ctx):
         "attributes": (types.SimpleNamespace(type=kind, coordinates=copy.deepcopy(c)), "attributes"),
         "json": (json.dumps(d), "json"),
     }
+    if len(spec["muts"]) % 2 == 0:
+        # mode names that arrive at run time (equal to the literals, not the same string objects)
+        inputs = {k: (o, "".join(list(m))) for k, (o, m) in inputs.items()}
     for name, (obj, mode) in inputs.items():
         before = copy.deepcopy(obj.__dict__ if name == "attributes" else obj)
         try:
